@@ -138,6 +138,15 @@ def list_templates(tier):
                 yield [(y0, e1), (r, op(y0, a))]
                 yield [(y0, e1), (r0, Xor(And(y0, c), d)), (r1, Xor(And(y0, c), a))]
                 yield [(y0, e1), (y1, op(y0, c)), (r0, op(y1, a)), (r1, op(y0, y1))]
+    # INPUTS named like the temporaries the cse step invents (x0, x1, x2), copied through bare and used inside expressions,
+    # next to sub-expressions shared by several returns (so that cse does introduce temporaries)
+    for nm in ("x0", "x1", "x2"):
+        z = S(nm)
+        for e1 in E1[:8]:
+            for op in (And, Or, Xor):
+                yield [(r0, z), (r1, op(e1, c)), (r2, Xor(e1, d))]
+                yield [(r0, Not(z)), (r1, op(e1, c)), (r2, Xor(e1, z))]
+                yield [(S("v"), z), (r0, S("v")), (r1, op(e1, c)), (r2, And(e1, Not(c)))]
     # several return symbols, some trivial
     for e1 in E1b:
         for e2 in E1b[::3]:
